@@ -1148,8 +1148,9 @@ package goatlang
 //@   ensures#frame keeps(v, len(v.stack))
 //@   ensures#next stays(v)
 //@ func (*VM).exec case codeSlice
-//@   property C07
+//@   property C07 C11
 //@   requires need(v, 3)
+//@   ensures#negbound @C11 old(top(v, 0)).Int() >= -1
 //@   ensures#delta len(v.stack) == old(len(v.stack)) - 2
 //@   ensures#frame keeps(v, len(v.stack) - 1)
 //@   ensures#next stays(v)
